@@ -498,6 +498,9 @@ PredTerm(pred, v, x, y) ==
       [] pred = "inside"  -> <<"and", <<"cmp", "gte", v, K(x)>>, <<"cmp", "lte", v, K(y)>>>>
       [] pred = "outside" -> <<"or", <<"cmp", "lt", v, K(x)>>, <<"cmp", "gt", v, K(y)>>>>
 
+(* circumstance of a listed finding: the mask is written through a view whose elements are not contiguous in storage *)
+MaskWriteTags(t) == IF t.view /\ (~Contiguous(t.cells) \/ t.wide) THEN {"mask-write-noncontig-view"} ELSE {}
+
 (* a soft mask is replaced by the predicate, a hard mask only grows *)
 MaskPredT(S, h, pred, x, y) ==
     LET t  == S.live[h]
@@ -507,13 +510,13 @@ MaskPredT(S, h, pred, x, y) ==
         nm == [k \in 1..Len(t.cells) |->
                  LET p == PredTerm(pred, S.heap[t.cells[k]], x, y)
                  IN IF soft THEN p ELSE Or01(MaskBit(S0, t.cells[k]), p)]
-    IN OkH(WriteMask(S0, a, t.cells, nm), 0)
+    IN Tagged(OkH(WriteMask(S0, a, t.cells, nm), 0), MaskWriteTags(t))
 
 SoftenT(S, h, soft) == OkH([S EXCEPT !.allocs[S.live[h].al].soft = soft], 0)
 ResetMaskT(S, h) ==
     LET t == S.live[h] a == t.al
         S0 == IF IsMaskedT(S, t) THEN S ELSE SetMaskAll(S, a, [i \in 1..S.allocs[a].len |-> MF])
-    IN OkH(WriteMask(S0, a, t.cells, [k \in 1..Len(t.cells) |-> MF]), 0)
+    IN Tagged(OkH(WriteMask(S0, a, t.cells, [k \in 1..Len(t.cells) |-> MF]), 0), MaskWriteTags(t))
 
 (* Filled: a fresh tensor equal to the receiver with every masked element replaced by v *)
 FilledT(S, h, v) ==
